@@ -153,7 +153,10 @@ func c05InZone(c *Ctx, stream, tn string, cur textWire) {
 
 func c05Record(c *Ctx, stream string, g *GenRR) {
 	tn := dns.Type(g.Type).String()
-	in := fmt.Sprintf("type=%s wire=%s", tn, hx(g.Wire))
+	if _, named := dns.TypeToString[g.Type]; !named {
+		tn = "TYPE-unassigned" // one key for all of them
+	}
+	in := fmt.Sprintf("type=%s wire=%s", dns.Type(g.Type).String(), hx(g.Wire))
 	rr, off, err := dns.UnpackRR(g.Wire, 0)
 	if err != nil || off != len(g.Wire) {
 		c.Hit("skipped:" + tn)
@@ -172,6 +175,7 @@ func c05Record(c *Ctx, stream string, g *GenRR) {
 		if rr2 == nil {
 			return "parse-nil"
 		}
+		txt2 := rr2.String() // before anything else touches the record (packing fills in Rdlength)
 		w2, err := packRRBytes(rr2)
 		if err != nil {
 			return "repack-error: " + err.Error()
@@ -180,8 +184,8 @@ func c05Record(c *Ctx, stream string, g *GenRR) {
 			return "differs: " + hx(w2)
 		}
 		// text of the re-read record is a fixed point
-		if rr2.String() != txt {
-			return "text-not-stable: " + rr2.String()
+		if txt2 != txt || rr2.String() != txt {
+			return "text-not-stable: " + txt2
 		}
 		// the sibling entry points read the same text the same way
 		rr5, err := dns.ReadRR(strings.NewReader(txt), "verif.zone")
@@ -360,6 +364,27 @@ func runC05(c *Ctx) {
 			g.Wire = assembleRR(g.Owner, g.Type, g.Class, g.TTL, g.Rdata)
 			c05Record(c, "from-wire", g)
 		}
+	}
+	// record types the library does not know: the RFC 3597 form out and in again (what is printed for a record read from
+	// text must be readable too: `text-not-stable`)
+	for i, n := 0, c.Scale(400, 6000); i < n; i++ {
+		typ := uint16(65280 + r.Intn(254))
+		if r.Chance(40) {
+			typ = uint16(270 + r.Intn(32000))
+		}
+		if _, known := dns.TypeToRR[typ]; known {
+			continue
+		}
+		if _, named := dns.TypeToString[typ]; named {
+			continue
+		}
+		g := genRR(r, typ, r.Intn(3), false)
+		g.Class = 1
+		if r.Chance(10) {
+			g.Rdata = nil
+		}
+		g.Wire = assembleRR(g.Owner, g.Type, g.Class, g.TTL, g.Rdata)
+		c05Record(c, "unknown-types", g)
 	}
 	// RFC 3597 generic form with large RDATA (the 16-bit length is where arithmetic goes wrong)
 	for _, n := range []int{255, 256, 32767, 32768, 32769, 40000, 65534, 65535} {
